@@ -1,6 +1,9 @@
 (* C12 -- Timestamps follow the FIT time rules, including compressed headers. *)
 From Coq Require Import NArith ZArith List Bool.
-From FitV Require Import Model.Values Model.Base Model.Decode Gen.Consts Proofs.DecodeLemmas.
+From FitV Require Import Model.Values Model.Bytes Model.Base Model.Profile Model.IO Model.Route Model.Decode Gen.Consts
+  Spec.FitSyntax Spec.RouteSpec Proofs.DecodeLemmas
+  Proofs.StreamDenoteBase Proofs.StreamDenoteDefs Proofs.StreamDenoteLoop Proofs.StreamDenoteSkip Proofs.StreamDenoteMain
+  Proofs.StreamDenoteWitness.
 Import ListNotations.
 Local Open Scope N_scope.
 
@@ -43,8 +46,85 @@ Theorem C12_local_time_without_reference : forall s u num, u <> 0xFFFFFFFF -> ds
   In Q_LOCAL_SETS_REF (ds_quirks (snd (parse_time_stamp s u kind_timelocal num))).
 Proof. exact local_time_without_reference. Qed.
 
-(* PARTIAL: compressed_time_spec (timestamps (Decode (serialize s)) = spec_times s by induction over streams)
-   is covered by the harness with the extracted reference semantics Spec/FitSyntax.v as oracle; the per-step
-   arithmetic and invariant lemmas above are its proved ingredients. *)
+(* ---------------------------------------------------------------------------------------------------------
+   compressed_time_spec on whole streams.  The time rules are the reference semantics' (Spec/FitSyntax.v:
+   denote_data, denote_fields); the decoder follows them record by record: *)
+
+(* one record of any kind -- in particular a compressed-timestamp record in any decoder state related to the
+   reference state -- is decoded to exactly what [denote_record] says, including the new time reference
+   (Inv contains: d.timestamp = reference, d.lastTimeOffset = reference mod 32, 0 <-> no reference) *)
+Theorem C12_record_step : forall o pre fb gb ft s ss r ss' tl t n lim,
+  Inv o pre fb gb ft s ss -> rec_wf r = true -> record_time_ok ss r = true -> denote_record ss r = Some ss' ->
+  (n + List.length (ser_record r) <= lim)%nat ->
+  exists s',
+    run_a (parse_record o) (ast_at (ser_record r) tl t n lim) s =
+      ROk tt (ast_at [] tl t (n + List.length (ser_record r)) lim) s' /\
+    Inv o pre fb gb ft s' ss'.
+Proof. exact record_step. Qed.
+Print Assumptions C12_record_step.
+(* (whole streams and the entry point Decode: Props/C02.v, C02_decode_denote_records / C02_decode_denote) *)
+
+(* what the reference semantics says about compressed-timestamp records, hence -- by the theorem above -- what the
+   decoder does: the reference advances by the rollover rule ... *)
+Theorem C12_compressed_ref_rule : forall s l off pay dev s' d r,
+  lookup_def (ss_env s) l = Some d -> ss_ref s = Some r ->
+  (forall f, In f (sd_fds d) -> sf_num f <> c_fieldNumTimeStamp) ->
+  denote_data s l (Some off) pay dev = Some s' ->
+  ss_ref s' = Some (roll r off).
+Proof. exact compressed_ref_rule. Qed.
+(* ... the message is stamped with that instant ... *)
+Theorem C12_compressed_stamp : forall s l off pay dev s' d r p m0,
+  lookup_def (ss_env s) l = Some d -> ss_ref s = Some r ->
+  known_msg (sd_gmn d) = true -> get_field (sd_gmn d) c_fieldNumTimeStamp = Some p ->
+  (forall f q, In f (sd_fds d) -> get_field (sd_gmn d) (sf_num f) = Some q -> pf_sindex q <> pf_sindex p) ->
+  mesg_all_invalid (sd_gmn d) = Some m0 -> (pf_sindex p < List.length (m_fields m0))%nat ->
+  denote_data s l (Some off) pay dev = Some s' ->
+  exists m, ss_msgs s' = ss_msgs s ++ [m] /\
+            nth_error (m_fields m) (pf_sindex p) = Some (time_of (roll r off)).
+Proof. exact compressed_stamp. Qed.
+Print Assumptions C12_compressed_stamp.
+(* ... which is the next instant at or after the reference whose low five bits are the header's offset ... *)
+Theorem C12_roll_rule : forall r off, off < 32 -> r + 32 < 2 ^ 32 ->
+  roll r off mod 32 = off /\ r <= roll r off < r + 32.
+Proof. exact roll_rule. Qed.
+(* ... and before any timestamp was seen a compressed record is decoded like a plain one (unstamped) *)
+Theorem C12_no_reference_unstamped : forall s l off pay dev,
+  ss_ref s = None -> denote_data s l (Some off) pay dev = denote_data s l None pay dev.
+Proof. exact no_reference_unstamped. Qed.
+
+(* FULL STATEMENT (refuted): the stream theorem without the side condition [no_time_quirk].  Three witnesses, each
+   a serialisable stream the reference semantics accepts on which the decoder model returns a different File:
+   a local timestamp before any reference followed by a compressed record (known finding local_sets_reference;
+   the model raises Q_LOCAL_SETS_REF), an explicit timestamp 0 followed by a compressed record (known finding
+   ts_zero_no_reference; Q_TS_ZERO), and a compressed step wrapping the 32-bit reference to exactly 0 (the same
+   defect without a literal 0 on the wire; the same tag) *)
+Theorem C12_local_first_refuted :
+  stream_wf w_local_first = true /\ starts_with_file_id w_local_first = true /\
+  (exists a b, spec_slots w_local_first = Some a /\ model_slots w_local_first = Some b) /\
+  agree w_local_first = false /\ no_time_quirk w_local_first = false /\
+  In Q_LOCAL_SETS_REF (model_quirks w_local_first).
+Proof. exact decode_denote_local_first_refuted. Qed.
+Theorem C12_ts_zero_refuted :
+  stream_wf w_ts_zero = true /\ starts_with_file_id w_ts_zero = true /\
+  (exists a b, spec_slots w_ts_zero = Some a /\ model_slots w_ts_zero = Some b) /\
+  agree w_ts_zero = false /\ no_time_quirk w_ts_zero = false /\
+  In Q_TS_ZERO (model_quirks w_ts_zero).
+Proof. exact decode_denote_ts_zero_refuted. Qed.
+Theorem C12_wrap_zero_refuted :
+  stream_wf w_wrap_zero = true /\ starts_with_file_id w_wrap_zero = true /\
+  (exists a b, spec_slots w_wrap_zero = Some a /\ model_slots w_wrap_zero = Some b) /\
+  agree w_wrap_zero = false /\ no_time_quirk w_wrap_zero = false /\ In Q_TS_ZERO (model_quirks w_wrap_zero).
+Proof. exact decode_denote_wrap_zero_refuted. Qed.
+
+(* the side condition is satisfiable by a stream with an explicit timestamp, a compressed record and a local
+   timestamp read against the reference; on it model and reference semantics agree (recomputed) *)
+Example C12_stream_example :
+  starts_with_file_id ok_stream = true /\ stream_wf ok_stream = true /\ no_time_quirk ok_stream = true /\
+  (exists ss f2 g1, denote ok_stream = Some ss /\ StreamDenoteLift.start_file w_hdr Model.Components.g_init (hd dummy_msg (ss_msgs ss)) = Some (f2, g1)) /\
+  agree ok_stream = true.
+Proof. exact ok_stream_in_domain. Qed.
+
+(* PARTIAL: nothing of the time rules is left to the harness alone except the executions on the recorded defect
+   paths, which are excluded by [no_time_quirk] and documented by the witnesses above. *)
 Example C12_example : let r' := 0x30000000 + (5 + 32 - 0x30000000 mod 32) mod 32 in r' = 0x30000005.
 Proof. reflexivity. Qed.
